@@ -1,6 +1,7 @@
 """Shared pipeline of the object-lifecycle properties C01, C02, C03, C04, C17.
 Specs: spec/SpecValid.tla (validity against the frozen model), spec/Trace_ObjectModel.tla (clauses), spec/ObjectModel.tla (S1 design model)."""
 import copy
+import zlib
 import json
 import os
 
@@ -106,7 +107,7 @@ def shape_variants(g, key, rng, quick):
             vals = [x for x in (d.get("min"), d.get("max"), 0) if x is not None and (d.get("min") is None or x >= d["min"]) and (d.get("max") is None or x <= d["max"])]
         elif d["kind"] == "boolean":
             vals = [False, True]
-        elif d["kind"] == "string" and not d["lenient"] and n not in ("name",):
+        elif d["kind"] == "string" and not d["lenient"] and n not in ("name", "definition_type"):    # definition_type names the form of `definition`: other values leave it unspecified
             vals = [""] if rng.random() < 0.3 else []
         elif d["kind"] == "timestamp" and d["precision"] != "second":
             sec = base[n][:19]
@@ -445,13 +446,17 @@ def junk_one(how, d, v, strict, observable=False):
             "family": True, "exc": "none", "doc": {"key": "objects:?", "props": []}, "input": d}
     try:
         # the version is named or left to detection (both paths inspect raw input)
-        named = v if (hash(how) % 2 == 0 or (observable and isinstance(d, dict))) else None
+        named = v if (zlib.crc32(how.encode()) % 2 == 0 or (observable and isinstance(d, dict))) else None
         line["version_named"] = named is not None
         obj = parse(d, named, strict=strict, observable=observable and isinstance(d, dict))
         out = out_json(obj)
         line["ok"] = True
         if isinstance(out, dict) and strict and hasattr(obj, "serialize"):
-            line["doc"] = lex.doc(out, v or ("2.1" if "spec_version" in out else "2.0"), None)
+            if named is None:
+                # the version was left to detection: the output is held to the version the library decided on
+                mod = type(obj).__module__
+                line["v"] = "2.0" if ".v20." in mod or mod.endswith(".v20") else "2.1" if ".v21." in mod or mod.endswith(".v21") else line["v"]
+            line["doc"] = lex.doc(out, line["v"], None)
             line["key"] = line["doc"]["key"]
             line["output"] = out
         else:
